@@ -435,6 +435,53 @@ def u_destination_down(ctx, index):
     ctx.check('C07/destinationDown/queue_kept_otherwise', h.queue.term == old)
 
 
+# ---- destinationUp: a destination (re)joins the router -------------------------------------------
+
+def u_destination_up(ctx, index):
+  """C09: receivers can be paused on behalf of a destination that is not in the router for two
+  reasons -- it was the last one (destinationDown pauses) or it was dropped with its full signal
+  outstanding (known finding D8: the queue is cleared without a space signal).  The moment such a
+  destination is back in the router with its queue below the low watermark nothing else will ever
+  signal space for it (no send is scheduled for an empty queue, sendDatapoint does not re-fire a
+  called queueFull), so this handler has to let the receivers go."""
+  h = ClientHarness(ctx, index, prefix='C07/')
+  has0 = h.router_has
+  count0 = h.router_count
+  ctx.assume(z3.Implies(has0, count0 >= 1))
+  # destinations in the router satisfy the relay-side invariant; a dropped one need only satisfy
+  # what destinationDown establishes (its queue was emptied)
+  ctx.assume(z3.Implies(has0, relay_bp_inv(h)))
+  ctx.assume(z3.Implies(z3.Not(has0), h.queue.length() == 0))
+  old = h.queue.term
+  qf0 = as_b(h.queueFull.called)
+  raised = None
+  n_log = len(h.log.events)
+  try:
+    h.ip.run(FACTORY + '.destinationUp', [h.destination], self_obj=h.factory)
+  except PyRaise as e:
+    raised = e.exc
+  ctx.cover('destinationUp/returns')
+  ctx.check('C09/destinationUp/no_raise', z3.BoolVal(raised is None))
+  if raised is not None:
+    return
+  ev = [e[0] for e in h.log.events[n_log:]]
+  resumed = 'events.resumeReceivingMetrics' in ev
+  paused = 'events.pauseReceivingMetrics' in ev
+  added = ev.count('router.addDestination')
+  if added:
+    ctx.cover('destinationUp/added')
+  ctx.check('C09/destinationUp/queue_untouched', h.queue.term == old)
+  ctx.check('C09/destinationUp/never_pauses', z3.BoolVal(not paused))
+  ctx.check('C09/destinationUp/back_in_the_router', z3.BoolVal(added <= 1 and 'router.removeDestination' not in ev) if added
+            else has0)
+  # the pause taken because no destination was left is released by the first one back
+  ctx.check('C09/destinationUp/first_destination_back_resumes_receivers',
+            z3.Implies(z3.And(z3.Not(has0), count0 == 0), z3.BoolVal(resumed)))
+  # the pause of a destination dropped while full (D8) is released when it rejoins, whatever else is in the router
+  ctx.check('C09/destinationUp/rejoining_destination_releases_its_full_signal',
+            z3.Implies(z3.And(z3.Not(has0), qf0, z3.ToReal(h.queue.length()) < h.low), z3.BoolVal(resumed)))
+
+
 # ---- wire encodings (C15) ------------------------------------------------------------------------
 
 DP_TS_INT = z3.Function('dp_timestamp_trunc', DP, z3.IntSort())
@@ -574,14 +621,14 @@ def replay_client(model, ob):
 def all_units(pid=None):
   us = _all_units()
   if pid == 'C07':
-    return [u for u in us if not u.name.endswith('_sendDatapointsNow') and u.name != 'client.queueSpaceCallback']
+    return [u for u in us if not u.name.endswith('_sendDatapointsNow') and u.name not in ('client.queueSpaceCallback', 'client.destinationUp')]
   if pid == 'C15':
     return [u for u in us if u.name in ('client.takeSomeFromQueue', 'client.protocol.sendQueued',
                                         'client.line._sendDatapointsNow', 'client.pickle._sendDatapointsNow')]
   if pid == 'C09':
     return [u for u in us if u.name in ('client.sendDatapoint', 'client.scheduleSend', 'client.protocol.sendQueued',
                                         'client.queueSpaceCallback', 'client.resume_pause',
-                                        'client.destinationDown')]
+                                        'client.destinationDown', 'client.destinationUp')]
   return us
 
 
@@ -621,6 +668,9 @@ def _all_units():
     Unit('client.destinationDown', u_destination_down, [F + '.destinationDown'],
          expect_covers=['destinationDown/returns', 'destinationDown/removed', 'destinationDown/reinject_one'], replay=replay_client,
          native_clauses=['C07/destinationDown/queue_kept_otherwise', 'C07/destinationDown/reinjects_in_order', 'C07/destinationDown/no_raise']),
+    Unit('client.destinationUp', u_destination_up, [F + '.destinationUp'],
+         expect_covers=['destinationUp/returns', 'destinationUp/added'], replay=replay_client,
+         native_clauses=['C09/destinationUp/first_destination_back_resumes_receivers', 'C09/destinationUp/rejoining_destination_releases_its_full_signal']),
     Unit('client.line._sendDatapointsNow', u_line_send_now, [LINE_P + '._sendDatapointsNow'],
          expect_covers=['line/returns', 'line/one_datapoint']),
     Unit('client.pickle._sendDatapointsNow', u_pickle_send_now, [PICKLE_P + '._sendDatapointsNow'], expect_covers=['pickle/returns']),
